@@ -38,7 +38,10 @@ where
     fn solve(&self, _solver: &Solver<U, E>, state: State<U, E>) -> Stream<U, E> {
         let u = self.u.clone();
         let v = self.v.clone();
-        match DiseqFdConstraint::new(u, v).run(state) {
+        match DiseqFdConstraint::new(u, v)
+            .run(state)
+            .and_then(State::run_constraints)
+        {
             Ok(state) => Stream::unit(Box::new(state)),
             Err(_) => Stream::empty(),
         }
